@@ -88,11 +88,11 @@ pub fn nested_types(tier: Tier, v: &mut impl Visitor) {
     v.visit::<f64, DualVec<Dual64, f64, Const<2>>>(Dims::n(2));
     v.visit::<f32, Dual<Dual32, f32>>(Dims::NONE);
     v.visit::<f64, Dual3<Dual64, f64>>(Dims::NONE);
+    v.visit::<f64, HyperHyperDual<Dual64, f64>>(Dims::NONE);
     if tier == Tier::Thorough {
         v.visit::<f64, Dual<Dual<Dual64, f64>, f64>>(Dims::NONE);
         v.visit::<f64, Dual2<Dual2_64, f64>>(Dims::NONE);
         v.visit::<f64, Dual<Dual3_64, f64>>(Dims::NONE);
-        v.visit::<f64, HyperHyperDual<Dual64, f64>>(Dims::NONE);
         v.visit::<f64, Dual<DualSVec64<2>, f64>>(Dims::n(2));
         v.visit::<f64, HyperDualVec<Dual64, f64, Const<2>, Const<2>>>(Dims::mn(2, 2));
         v.visit::<f32, Dual2<Dual32, f32>>(Dims::NONE);
